@@ -8,6 +8,8 @@ CONSTANTS
   Ks = {1, 2}
   NsSeq <- Ns1
   WithEmpty = TRUE
+  CfgRs = {TRUE, FALSE}
+  CfgSs = {TRUE, FALSE}
 VIEW view
 INVARIANTS RefsOK DiskOK ObjsCanon LatentUnreachable
 CHECK_DEADLOCK FALSE
